@@ -18,6 +18,7 @@ SERVICES = [
 FILTERS = [
     C.Service(0x1111), C.Service(0x1111, 1), C.Service(0x1111, 0xFFFF, 1, 7), C.Service(0x2222, 1, 2, 0),
     C.Service(0x1111, 2, 0xFF, 0xFFFFFFFF), C.Service(0x3333),
+    C.Service(0x1111, 0xFFFF, 0xFF, 7),          # wildcard major with a concrete minor version
 ]
 TTLS = [1, 2, 3, 0xFFFFFF]
 
@@ -80,7 +81,7 @@ def discovery_scenario(r, length=None, small=False):
     cfg = list(timings(r))
     cfg[11] = r.choice([0, 5 * MS])
     end = r.choice([6, 8, 12]) * T
-    peers = {a: Peer(a) for a in ((1,) if small else (1, 2, 3))}
+    peers = {a: Peer(a) for a in ((1,) if small else (1, 2, 3, 101))}     # 101: another port on the host of peer 1
     svcs = SERVICES[:2] if small else SERVICES
     n = length if length is not None else r.randint(2, 12)
     events = []
@@ -153,7 +154,7 @@ def server_scenario(r, length=None, small=False):
     """Subscribe / StopSubscribe / reboot / service stop+start / connection loss / finds (C06, C09, C11, C12, C10)."""
     cfg = list(timings(r))
     end = r.choice([6, 8, 12]) * T
-    peers = {a: Peer(a) for a in ((1,) if small else (1, 2, 3))}
+    peers = {a: Peer(a) for a in ((1,) if small else (1, 2, 3, 101))}     # 101: another port on the host of peer 1
     ninst = r.choice([1, 1, 2, 3])
     insts = []
     for i in range(ninst):
@@ -178,8 +179,12 @@ def server_scenario(r, length=None, small=False):
             svc = SERVICES[i]
             eg = r.choice(sorted(svc.eventgroups) + [77])
             ttl = r.choice(TTLS + [0])
-            if r.random() < 0.15:
+            c2 = r.random()
+            if c2 < 0.12:
                 svc = C.Service(svc.service_id, svc.instance_id + 7, svc.major_version)
+            elif c2 < 0.2:
+                # wildcards in the ENTRY are no wildcards: such a Subscribe matches no concrete instance
+                svc = C.Service(svc.service_id, r.choice([0xFFFF, svc.instance_id]), r.choice([0xFF, svc.major_version]))
             es = [sub_entry(r, svc, eg, ttl, r.choice([0, 0, 1, 15]), r.choice([1, 1, 1, 0, 2]), r.random() < 0.2, ep_n=a)]
             if r.random() < 0.2:
                 es.append(sub_entry(r, SERVICES[r.randrange(ninst)], 5, r.choice(TTLS), 0, 1, ep_n=a))
